@@ -8,6 +8,7 @@
 use anyhow::Context;
 use anyhow::Result;
 use clap::ValueEnum;
+use regex::Regex;
 use unicode_categories::UnicodeCategories;
 
 use crate::newline::BytesNewline;
@@ -108,10 +109,82 @@ fn escaped_expectation_ascii(line: &[u8]) -> String {
     let escaped = escaped_printable_ascii(line.trim_newlines());
     let encoded = lossy_string!(line.trim_newlines());
     if encoded == escaped {
-        encoded
+        unambiguous_expectation(encoded)
     } else {
-        format!("{escaped} (escaped)")
+        format!("{} (escaped)", protect_escaped_expression(&escaped))
     }
+}
+
+lazy_static! {
+    /// A tailing group that would be read as the kind and / or quantifier of an expectation
+    static ref MODIFIER_LIKE_TAIL: Regex = Regex::new(
+        r"\s\((?:(?:equal|eq|no-eol|escaped|esc|glob|gl|regex|re)[*+?]?|[*+?])\)$"
+    )
+    .expect("modifier like tail expression must compile");
+
+    /// A line that would be read as the expected exit code
+    static ref EXIT_CODE_LIKE: Regex =
+        Regex::new(r"^\[[0-9]+\]$").expect("exit code like expression must compile");
+}
+
+/// Returns the hexadecimal escape sequence(s) for the character that starts
+/// at the given offset, together with the text before and after it
+fn escape_char_at(text: &str, offset: usize) -> String {
+    let (head, tail) = text.split_at(offset);
+    match tail.chars().next() {
+        Some(ch) => {
+            let mut seq = [0; 4];
+            let hex = ch
+                .encode_utf8(&mut seq)
+                .bytes()
+                .map(|byte| format!("\\x{:02x}", byte))
+                .collect::<String>();
+            format!("{}{}{}", head, hex, &tail[ch.len_utf8()..])
+        }
+        None => text.to_string(),
+    }
+}
+
+/// Printable output lines are written as they are, unless they would be read
+/// as something else than an expectation of that very text: lines that end in
+/// what looks like a kind or quantifier, that look like an exit code, or like
+/// the start or continuation of a shell expression. Those are written in
+/// escaped form, with the one character escaped that makes the difference.
+fn unambiguous_expectation(text: String) -> String {
+    let tail_offset = MODIFIER_LIKE_TAIL.find(&text).map(|tail| tail.start());
+    // (a lone `$` or `>` becomes one as soon as ` (no-eol)` is appended)
+    let escape_start = EXIT_CODE_LIKE.is_match(&text)
+        || text.starts_with("$ ")
+        || text.starts_with("> ")
+        || text == "$"
+        || text == ">";
+    if tail_offset.is_none() && !escape_start {
+        return text;
+    }
+    let mut escaped = String::new();
+    for (offset, ch) in text.char_indices() {
+        if Some(offset) == tail_offset || (escape_start && offset == 0) {
+            escaped.push_str(&escape_char_at(&text[offset..offset + ch.len_utf8()], 0));
+        } else if ch == '\\' {
+            escaped.push_str("\\\\");
+        } else {
+            escaped.push(ch);
+        }
+    }
+    format!("{escaped} (escaped)")
+}
+
+/// An escaped expression must not start like a shell expression, nor end in
+/// the ` (no-eol)` marker that escaped expectations ignore
+fn protect_escaped_expression(escaped: &str) -> String {
+    let mut escaped = escaped.to_string();
+    if escaped.starts_with("$ ") || escaped.starts_with("> ") {
+        escaped = escape_char_at(&escaped, 0);
+    }
+    if escaped.ends_with(" (no-eol)") {
+        escaped = escape_char_at(&escaped, escaped.len() - " (no-eol)".len());
+    }
+    escaped
 }
 
 /// All non-printable unicode are rendered as hexadecimal escape sequence, all
@@ -147,9 +220,9 @@ fn escaped_expectation_unicode(line: &[u8]) -> String {
     let escaped = escaped_printable_unicode(line.trim_newlines());
     let encoded = lossy_string!(line.trim_newlines());
     if encoded == escaped {
-        encoded
+        unambiguous_expectation(encoded)
     } else {
-        format!("{escaped} (escaped)")
+        format!("{} (escaped)", protect_escaped_expression(&escaped))
     }
 }
 
